@@ -1,4 +1,107 @@
-(* placeholder until proofs land *)
-From PV Require Import Model.Window.
-Theorem C14_placeholder : True. Proof. exact I. Qed.
-Print Assumptions C14_placeholder.
+(* C14  Sliding-window positions, iteration, length, nearest frame and tiling agree.
+   Exact tier: parameters and times in integer ticks (binary-grid-aligned values), quotients
+   taken exactly; the float code computes the same values on such inputs (tied by the
+   correspondence, DESIGN 2.4). Hypotheses: duration longer than the precision, step > 0.
+   Doubled coordinates are used where frame centres fall on half ticks. Statements only. *)
+From PV Require Import Model.Window Proofs.WindowP.
+
+Theorem C14_constructor_rejects : forall dur step start wend,
+  win_make dur step start wend = None <->
+  (dur <= 0 \/ step <= 0 \/ exists e, wend = Some e /\ e <= start).
+Proof. exact ctor_rejects. Qed.
+Theorem C14_constructor_and_copy_keep_parameters : forall dur step start wend w,
+  win_make dur step start wend = Some w ->
+  w_dur w = dur /\ w_step w = step /\ w_start w = start /\ w_end w = wend /\ 0 < dur /\ 0 < step /\
+  (forall e, wend = Some e -> start < e).
+Proof. exact ctor_accepts. Qed.
+
+Section C14.
+Variable eps : Z.
+Hypothesis Heps : 0 <= eps.
+Variable w : win.
+Hypothesis Hdur : eps < w_dur w.
+Hypothesis Hstep : 0 < w_step w.
+
+(* position i is [start + i*step, start + i*step + duration], defined while it begins before `end` *)
+Theorem C14_position : forall i,
+  win_get w i = match w_end w with
+                | Some e => if w_start w + i * w_step w <? e then Some (pos_seg w i) else None
+                | None => Some (pos_seg w i)
+                end.
+Proof. exact (getitem_spec w). Qed.
+(* iteration yields positions 0,1,2,... exactly while they begin before `end` (and restarts from 0) *)
+Theorem C14_iteration : forall e, w_end w = Some e ->
+  win_iter eps w = map (pos_seg w) (zrange 0 (win_count w)).
+Proof. exact (iter_spec eps w Hdur Hstep). Qed.
+Theorem C14_count_is_positions_before_end : forall e, w_end w = Some e -> forall i, 0 <= i ->
+  (i < win_count w <-> w_start w + i * w_step w < e).
+Proof. exact (count_spec w Hstep). Qed.
+(* len() equals that count, wherever closest_frame(end) lands *)
+Theorem C14_len : forall e, w_end w = Some e -> w_start w < e -> win_len eps w = Some (win_count w).
+Proof. exact (len_spec eps Heps w Hdur Hstep). Qed.
+Theorem C14_len_equals_iteration_length : forall e, w_end w = Some e ->
+  Z.of_nat (length (win_iter eps w)) = win_count w.
+Proof. exact (iter_length eps w Hdur Hstep). Qed.
+Theorem C14_len_infinite_rejected : w_end w = None -> win_len eps w = None.
+Proof. exact (len_infinite eps w). Qed.
+
+(* closest_frame(t): an index whose window centre is nearest to t; it inverts the centres *)
+Theorem C14_closest_frame_nearest : forall t i,
+  Z.abs (centre2 w (closest_frame w t) - 2 * t) <= Z.abs (centre2 w i - 2 * t).
+Proof. exact (closest_frame_nearest w Hstep). Qed.
+Theorem C14_closest_frame_inverts_centre : forall i h, w_dur w = 2 * h ->
+  closest_frame w (w_start w + i * w_step w + h) = i.
+Proof. exact (closest_frame_of_centre w Hstep). Qed.
+
+(* consecutive frame ranges map to abutting segments of length n*step centred on the frame centres;
+   a range starting at frame 0 is extended back to the window start *)
+Theorem C14_ranges_abut : forall i n m, i + n <> 0 ->
+  en (range_to_segment2 w i n) = st (range_to_segment2 w (i + n) m).
+Proof. exact (ranges_abut w). Qed.
+Theorem C14_range_length : forall i n, i <> 0 ->
+  en (range_to_segment2 w i n) - st (range_to_segment2 w i n) = 2 * (n * w_step w).
+Proof. exact (range_length w). Qed.
+Theorem C14_range_centred : forall i n, i <> 0 ->
+  st (range_to_segment2 w i n) = centre2 w i - w_step w /\
+  en (range_to_segment2 w i n) = centre2 w (i + n - 1) + w_step w.
+Proof. exact (range_centred w). Qed.
+Theorem C14_range_from_frame_0_extended : forall n,
+  st (range_to_segment2 w 0 n) = 2 * w_start w /\ en (range_to_segment2 w 0 n) = centre2 w (n - 1) + w_step w.
+Proof. exact (range_first_extended w). Qed.
+
+(* calling the window on a support segment at least as long as the window: exactly the positions
+   segment.start + k*step that fit entirely inside it; align_last adds the flush window iff the
+   last regular one stops short *)
+Theorem C14_call_positions : forall s, w_dur w <= en s - st s -> forall p,
+  In p (filter (fun q => sin s q) (win_iter eps (mkWin (w_dur w) (w_step w) (st s) (Some (en s))))) <->
+  exists k, 0 <= k <= fdiv (en s - st s - w_dur w) (w_step w) /\ p = fit_pos w s k.
+Proof. exact (fun s Hl => call_positions eps Heps w Hdur Hstep s Hl). Qed.
+Theorem C14_call_flush_needed : forall s,
+  let K := fdiv (en s - st s - w_dur w) (w_step w) in
+  en (fit_pos w s K) < en s <-> K * w_step w + w_dur w < en s - st s.
+Proof. exact (fun s => call_flush_needed w s). Qed.
+End C14.
+
+Example C14_nonvacuous :
+  exists w, win_make 2 1 0 (Some 4) = Some w /\ win_iter 0 w = [(0,2); (1,3); (2,4); (3,5)] /\
+            win_len 0 w = Some 4 /\ closest_frame w 3 = 2 /\
+            win_call 0 w [(3, 8)] true = [(3,5); (4,6); (5,7); (6,8)] /\
+            win_call 0 (mkWin 2 2 0 None) [(3, 8)] true = [(3,5); (5,7); (6,8)].
+Proof. eexists. vm_compute. repeat split. Qed.
+
+Print Assumptions C14_constructor_rejects.
+Print Assumptions C14_constructor_and_copy_keep_parameters.
+Print Assumptions C14_position.
+Print Assumptions C14_iteration.
+Print Assumptions C14_count_is_positions_before_end.
+Print Assumptions C14_len.
+Print Assumptions C14_len_equals_iteration_length.
+Print Assumptions C14_len_infinite_rejected.
+Print Assumptions C14_closest_frame_nearest.
+Print Assumptions C14_closest_frame_inverts_centre.
+Print Assumptions C14_ranges_abut.
+Print Assumptions C14_range_length.
+Print Assumptions C14_range_centred.
+Print Assumptions C14_range_from_frame_0_extended.
+Print Assumptions C14_call_positions.
+Print Assumptions C14_call_flush_needed.
